@@ -8,6 +8,7 @@
 #include "regex/QueryFilter.h"   // C14
 #include "util/TimeUtilityFunctions.h"
 #include "util/Hashtable.h"
+#include "util/String.h"
 using namespace muscle;
 
 #define K(name, val) printf("def %s : Nat := %llu\n", name, (unsigned long long)(val))
@@ -170,6 +171,7 @@ int main()
    {MessageIOGateway gw; struct X : public MessageIOGateway {uint32 hs() const {return GetHeaderSize();}} x; K("gatewayHeaderSize", x.hs());}
    printf("\n/- tunables: enter the model as parameters; theorems are quantified over them -/\n");
    K("maxMessageNestingDepth", (uint32)MUSCLE_MAX_MESSAGE_NESTING_DEPTH);
+   K("strSmallLen", (uint32)String::GetMaxShortStringLength());   // C17: chars a String holds without a heap buffer (formerly SMALL_MUSCLE_STRING_LENGTH)
    printf("\n/-- flattened size per item of the fixed-size field types, 0 = variable size\n    (tabulated from the compiled `Message::GetElementSize` / wire sizes) -/\n");
    printf("def wireItemSize (tc : Nat) : Nat :=\n");
    const uint32 tcs[] = {B_BOOL_TYPE, B_DOUBLE_TYPE, B_FLOAT_TYPE, B_INT64_TYPE, B_INT32_TYPE, B_INT16_TYPE, B_INT8_TYPE, B_POINT_TYPE, B_RECT_TYPE};
